@@ -175,6 +175,10 @@ def _get_item(value, index):
 
 
 def bound_check(index, shape):
+    if len(index) > len(shape):
+        raise IndexError(
+            f"index {index} has {len(index)} entries for shape {shape}"
+        )
     for ii, ss in zip(index, shape):
         if ii < 0 or ii >= ss:
             raise IndexError(f"index {index} outside shape {shape}")
